@@ -87,6 +87,8 @@ func Exprs() (plain, closures, closurePreds []string) {
 		"translate(//b, '1', '2')", "lower-case(//b)", "not(a)", "boolean(//a)", "number(//@x)", "floor(//@x)", "ceiling(*)", "round(//@x)", "matches(//b, '1')",
 		"replace(//b, '1', 'z')", "count(reverse(*))", "string(count(*))", "concat(string(a), name(b))", "not(not(a))", "count(//a[b])", "sum(*/@x)",
 		"string-join(//*[b], ',')", "concat(string-join(*, ','), count(*))", "string(.)", "position()", "last()", "*[last() - 1]",
+		"replace(//b, '(1)', '[$1]')", "replace(string(//@x), '(1)|(2)', '$2$1')", "replace(., '((1)(3))', '$3-$2-$1')", "matches(//b, '^(1|2)$')", "matches(string(.), '(1)(2)?(3)')",
+		"string-length((//b)[1])", "count((//a)[1]/*)", "normalize-space((*)[last()])",
 	}
 	closurePreds = []string{
 		"//*[name() = 'b']", "//*[string-length(.) > 0]", "//*[contains(., '1')]", "//*[string-join(*, ',') = '']", "//*[count(*) = 2]", "//*[normalize-space(.) = '1']",
